@@ -175,16 +175,22 @@ class AbstractSpecification(object):
 
     @property
     def sampling_violation_counter(self):
+        # each interpreter counts the gaps of the time-stamps it is given; a specification
+        # with both an online and an offline interpreter reports what either has counted
+        counter = None
         if hasattr(self, 'online_interpreter'):
             if isinstance(self.online_interpreter, DiscreteTimeInterpreter):
-                return self.online_interpreter.sampling_violation_counter
+                counter = self.online_interpreter.sampling_violation_counter
             else:
                 RTAMTException('only discrete time has sampling_violation_counter')
         if hasattr(self, 'offline_interpreter'):
             if isinstance(self.offline_interpreter, DiscreteTimeInterpreter):
-                return self.offline_interpreter.sampling_violation_counter
+                if counter is None:
+                    counter = int(0)
+                counter = counter + self.offline_interpreter.sampling_violation_counter
             else:
                 RTAMTException('only discrete time has sampling_violation_counter')
+        return counter
 
     @property
     def sampling_tolerance(self):
